@@ -6,6 +6,7 @@ package qbftsim
 
 import (
 	"context"
+	"errors"
 	"fmt"
 	"sync"
 	"testing/synctest"
@@ -138,6 +139,8 @@ type Proc struct {
 	MaxRound  int64
 	lastRule  qbft.UponRule
 	Decisions int
+	// CompareFailRound is the round of the last proposal this member's comparison rejected (0 = none).
+	CompareFailRound int64
 }
 
 // Hooks let a test customise behaviour (all optional).
@@ -148,31 +151,36 @@ type Hooks struct {
 	// recipients that get the message and whether the sender crashes right after (crash inside
 	// a broadcast). nil recipients = everybody.
 	OnBroadcast func(p *Proc, m *M) (recipients []int64, crash bool)
+	// CompareFails, if set, is the verdict of the opt-in comparison of a leader's proposal with the member's
+	// local data (Definition.Compare): true = mismatch. It must be a pure function of (member, value), as the
+	// production comparison is. nil = the production default (feature off: never fails).
+	CompareFails func(p *Proc, leaderMsg *M) bool
 	// Route, if set, takes over delivery of a queued message (latency mode); otherwise the
 	// delivery is put in Pending for the harness to pick.
 	Route func(d Delivery)
 }
 
 type Sim struct {
-	mu           sync.Mutex
-	N            int
-	Inst         int64
-	Def          qbft.Definition[int64, int64, int64]
-	Byz          map[int64]bool
-	Procs        []*Proc
-	Pending      []Delivery
-	Sent         []*M // every honest top-level broadcast, in order
-	Injected     []*M // every adversary top-level message
-	Decided      []Decision
-	Unjusts      []Unjust
-	Rules        []RuleEvent
-	RoundChg     int
-	RoundChanges []RoundChange // every round change of every process, with the rule that caused it
-	evSeq        int64
-	Hooks        Hooks
-	LeaderFn     func(inst, round, proc int64) bool
-	ctx          context.Context
-	cancel       context.CancelFunc
+	mu              sync.Mutex
+	N               int
+	Inst            int64
+	Def             qbft.Definition[int64, int64, int64]
+	Byz             map[int64]bool
+	Procs           []*Proc
+	Pending         []Delivery
+	Sent            []*M // every honest top-level broadcast, in order
+	Injected        []*M // every adversary top-level message
+	Decided         []Decision
+	Unjusts         []Unjust
+	Rules           []RuleEvent
+	RoundChg        int
+	CompareFailures int
+	RoundChanges    []RoundChange // every round change of every process, with the rule that caused it
+	evSeq           int64
+	Hooks           Hooks
+	LeaderFn        func(inst, round, proc int64) bool
+	ctx             context.Context
+	cancel          context.CancelFunc
 }
 
 func New(n int, inst int64, leader func(inst, round, proc int64) bool, byz map[int64]bool, hooks Hooks) *Sim {
@@ -216,7 +224,15 @@ func (s *Sim) defFor(p *Proc) qbft.Definition[int64, int64, int64] {
 			s.mu.Unlock()
 		}
 	}
-	d.Compare = func(_ context.Context, _ QMsg, _ <-chan int64, _ int64, returnErr chan error, _ chan int64) {
+	d.Compare = func(_ context.Context, m QMsg, _ <-chan int64, _ int64, returnErr chan error, _ chan int64) {
+		if s.Hooks.CompareFails != nil && s.Hooks.CompareFails(p, FromQ(m)) {
+			s.mu.Lock()
+			s.CompareFailures++
+			p.CompareFailRound = m.Round()
+			s.mu.Unlock()
+			returnErr <- errors.New("harness: the leader's value does not match this member's local data")
+			return
+		}
 		returnErr <- nil
 	}
 	d.Decide = func(_ context.Context, _ int64, value int64, round int64, qcommit []QMsg) {
